@@ -6,7 +6,7 @@ mod run;
 use std::io::{BufRead, BufWriter, Write};
 
 fn usage() -> ! {
-    eprintln!("usage: wfh gen <suite> <seed> <quick|thorough> <ops-out>\n       wfh run <ops-in> <ops-full-out> <impl-out> <oracle-out>");
+    eprintln!("usage: wfh gen <suite> <seed> <size> <chunk> <nchunks> <ops-out>\n       wfh run <ops-in> <ops-full-out> <impl-out> <oracle-out>");
     std::process::exit(2)
 }
 
@@ -14,26 +14,25 @@ fn main() {
     std::panic::set_hook(Box::new(|_| {}));
     let args: Vec<String> = std::env::args().collect();
     match args.get(1).map(String::as_str) {
-        Some("gen") if args.len() == 6 => {
+        Some("gen") if args.len() == 8 => {
+            // wfh gen <suite> <seed> <size> <chunk> <nchunks> <ops-out>
             let seed: u64 = args[3].parse().unwrap_or(1);
-            let thorough = args[4] == "thorough";
-            let mut rng = rng::Rng::new(seed);
-            let mut out = gen::Out { lines: vec![] };
+            let size: usize = args[4].parse().unwrap_or(1);
+            let chunk: usize = args[5].parse().unwrap_or(0);
+            let nchunks: usize = args[6].parse().unwrap_or(1);
+            let mut rng = rng::Rng::new(seed.wrapping_mul(1000).wrapping_add(chunk as u64));
+            let mut out = gen::Out { lines: vec![], chunk, nchunks, counter: 0 };
             match args[2].as_str() {
-                "hist" => gen::hist(&mut rng, if thorough { 6000 } else { 400 }, false, &mut out),
-                "family" => gen::hist(&mut rng, if thorough { 6000 } else { 400 }, true, &mut out),
-                "scope" => {
-                    if thorough {
-                        gen::scope(48, 2, 5, 5, &mut out)
-                    } else {
-                        gen::scope(48, 2, 4, 5, &mut out)
-                    }
-                }
-                "parse" => gen::parse_stream(10, if thorough { 7 } else { 5 }, 7, &mut out),
+                "hist" => gen::hist(&mut rng, size, false, &mut out),
+                "family" => gen::hist(&mut rng, size, true, &mut out),
+                "scope" => gen::scope(48, 2, size, 5, &mut out),
+                "scope1" => gen::scope(48, 1, size, 6, &mut out),
+                "parse" => gen::parse_stream(10, size, 7, &mut out),
                 _ => usage(),
             }
-            gen::write(&out, &args[5]);
+            gen::write(&out, &args[7]);
         }
+        Some("suites") => println!("hist family scope scope1 parse"),
         Some("run") if args.len() == 6 => {
             let input = std::io::BufReader::new(std::fs::File::open(&args[2]).expect("ops"));
             let mut full = BufWriter::new(std::fs::File::create(&args[3]).expect("full"));
